@@ -64,72 +64,89 @@ Example regular_pass :
 Proof. vm_compute. reflexivity. Qed.
 
 (* ---------- (a) the square of the unitary tensor ----------
-   simplify_unitary(Expr(U_pq**2), 'U') returns 1; the value is the dimension. *)
-Definition sq_term := Term 1 [U ip iq; U ip iq].
-Example square_pass : unitary_pass "U" (Some []) sq_term = RStep (false, ip, iq, iq) (Term 1 [])
-                   /\ unitary_pass "U" None sq_term = RStep (false, ip, iq, iq) (Term 1 []).
-Proof. split; vm_compute; reflexivity. Qed.
+   Before the repair simplify_unitary(Expr(U_pq**2), 'U') returned 1 although the
+   value is the dimension.  The relation still contains that step (it is why
+   unitary_step_sound needs its side condition); the executable pass - like
+   the repaired code - skips it. *)
+Definition sq_term := Term 1%Q [U ip iq; U ip iq].
 Example square_values :
   eval_term QcScalar Tex [] env0 sq_term = Q2Qc 2 /\ eval_term QcScalar Tex [] env0 (Term 1 []) = Q2Qc 1.
 Proof. split; apply Qc_is_canon; vm_compute; reflexivity. Qed.
 
-(* Without the side condition the step theorem is false for the model of the
-   code as it is. *)
+Lemma square_step : unitary_step "U" [] sq_term ip iq iq (Term 1 []).
+Proof. change (Term 1 []) with (build 1 iq iq []).
+  apply (UStep "U" [] 1 [U ip iq; U ip iq] (Tens KNonSym "U" 0 [ip; iq] []) (Tens KNonSym "U" 0 [ip; iq] [])
+               [] false ip iq iq); try reflexivity.
+  - split; reflexivity.
+  - intros []. Qed.
+
+(* Without the side condition the step theorem is false. *)
 Theorem unitary_step_sound_nosidecond_refuted :
   exists (S : Scalar) (T : tmodel S) name tg t p q r t' r0,
     unitary_step name tg t p q r t' /\
-    unitary_pass name (Some tg) t = RStep (false, p, q, r) t' /\
     same_sort q p = true /\ same_sort r p = true /\
     orthogonal S T name (irange S T p) /\
     (forall x, In x tg -> In (r0 x) (irange S T x)) /\
     eval_term S T tg r0 t <> eval_term S T tg r0 t'.
 Proof. exists QcScalar, Tex, "U", [], sq_term, ip, iq, iq, (Term 1 []), env0.
-  assert (Hp : unitary_pass "U" (Some []) sq_term = RStep (false, ip, iq, iq) (Term 1 []))
-    by (vm_compute; reflexivity).
-  split; [apply (unitary_pass_sound "U" [] sq_term false); exact Hp|].
-  split; [exact Hp|]. split; [reflexivity|]. split; [reflexivity|].
+  split; [exact square_step|]. split; [reflexivity|]. split; [reflexivity|].
   split; [apply Tex_orthogonal|]. split; [intros x []|].
   intros H. apply (f_equal this) in H. vm_compute in H. discriminate H. Qed.
 
-(* the same through the whole recursion: the result of the model of
-   simplify_term_unitary has a different value *)
-Theorem unitary_iter_value_refuted :
-  exists (S : Scalar) (T : tmodel S) name tg t t' r0,
-    unitary_iter 3 name (Some tg) t = Some t' /\
-    (forall sp sn, orthogonal S T name (rng T sp sn)) /\
-    eval_term S T tg r0 t <> eval_term S T tg r0 t'.
-Proof. exists QcScalar, Tex, "U", [], sq_term, (Term 1 []), env0.
-  split; [vm_compute; reflexivity|]. split; [apply Tex_orthogonal|].
-  intros H. apply (f_equal this) in H. vm_compute in H. discriminate H. Qed.
+(* regression: the executable pass and recursion leave U_pq**2 alone when q is
+   contracted, and still replace it by 1 when q is a target *)
+Example square_regression :
+  unitary_pass "U" (Some []) sq_term = RNone /\
+  unitary_pass "U" None sq_term = RNone /\
+  unitary_iter 3 "U" (Some []) sq_term = Some [sq_term] /\
+  unitary_iter 3 "U" None sq_term = Some [sq_term] /\
+  unitary_iter 3 "U" (Some [iq]) sq_term = Some [Term 1 []].
+Proof. repeat split; vm_compute; reflexivity. Qed.
 
-(* ---------- (b) the follow-up delta evaluation ignores the provided targets ----------
-   simplify_unitary(Expr(U_pq U_pr T_q, target_idx=(q, r)), 'U', evaluate_deltas=True)
-   returns T_r: func.evaluate_deltas is called on res.sympy without the provided
-   targets, re-derives "r is the only target" and substitutes q -> r. *)
+(* ---------- (c) the remaining product is a sum ----------
+   U_pq**2 * (e_q + e_s), targets (q, s): both summands are returned *)
+Definition sum_term :=
+  Term 1%Q [(APoly [(1%Q, [Tens KNonSym "e" 0 [iq] []]); (1%Q, [Tens KNonSym "e" 0 [is_] []])], false);
+          U ip iq; U ip iq].
+Example sum_regression :
+  unitary_iter 3 "U" (Some [iq; is_]) sum_term
+  = Some [Term (1 * 1)%Q [Tn "e" [iq]]; Term (1 * 1)%Q [Tn "e" [is_]]] /\
+  wfb "U" Gen NoSpin [iq; is_] sum_term = true.
+Proof. split; vm_compute; reflexivity. Qed.
+Example sum_regression_value :
+  eval_term QcScalar Tex [iq; is_] env0 sum_term
+  = ksum [Term (1 * 1)%Q [Tn "e" [iq]]; Term (1 * 1)%Q [Tn "e" [is_]]] (eval_term QcScalar Tex [iq; is_] env0).
+Proof. apply (unitary_iter_sound QcScalar Tex "U" Gen NoSpin [iq; is_] 3).
+  - vm_compute; reflexivity.
+  - vm_compute; reflexivity.
+  - apply Tex_orthogonal.
+  - intros x [<-|[<-|[]]]; vm_compute; auto. Qed.
+
+(* ---------- (b) the follow-up delta evaluation and the provided targets ----------
+   Before the repair func.evaluate_deltas was called on res.sympy without the
+   provided targets: U_pq U_pr T_q with targets (q, r) became T_r. *)
 Definition ed_term := Term 1 [Tn "T" [iq]; U ip iq; U ip ir].
-Example ed_as_coded_run :
-  simplify_ed_as_coded 3 "U" (Some [iq; ir]) ed_term = Some (Term 1 [Tn "T" [ir]]).
-Proof. vm_compute. reflexivity. Qed.
-Example ed_respecting_run :
-  simplify_ed_respecting 3 "U" (Some [iq; ir]) ed_term
-  = Some (Term 1 [(ADelta iq ir, false); Tn "T" [iq]]).
-Proof. vm_compute. reflexivity. Qed.
 Definition env_qr : env := fun x => if index_eqb x ir then 1%nat else 0%nat.
 
-Theorem simplify_ed_as_coded_refuted :
-  exists (S : Scalar) (T : tmodel S) name tg t t' r0,
-    simplify_ed_as_coded 3 name (Some tg) t = Some t' /\
+(* what ignoring the provided targets does (kept as documentation of the defect) *)
+Theorem simplify_ed_ignoring_targets_refuted :
+  exists (S : Scalar) (T : tmodel S) name tg t out r0,
+    simplify_ed_ignoring_targets 3 name (Some tg) t = Some out /\
     (forall sp sn, orthogonal S T name (rng T sp sn)) /\
     (forall x, In x tg -> In (r0 x) (irange S T x)) /\
-    eval_term S T tg r0 t <> eval_term S T tg r0 t'.
-Proof. exists QcScalar, Tex, "U", [iq; ir], ed_term, (Term 1 [Tn "T" [ir]]), env_qr.
+    eval_term S T tg r0 t <> ksum out (eval_term S T tg r0).
+Proof. exists QcScalar, Tex, "U", [iq; ir], ed_term, [Term 1 [Tn "T" [ir]]], env_qr.
   split; [vm_compute; reflexivity|]. split; [apply Tex_orthogonal|].
   split; [intros x [<-|[<-|[]]]; vm_compute; auto|].
   intros H. apply (f_equal this) in H. vm_compute in H. discriminate H. Qed.
 
-(* with the provided targets handed on, the same input keeps its value *)
-Example simplify_ed_respecting_value :
-  exists t', simplify_ed_respecting 3 "U" (Some [iq; ir]) ed_term = Some t' /\
-    eval_term QcScalar Tex [iq; ir] env_qr ed_term = eval_term QcScalar Tex [iq; ir] env_qr t' /\
-    eval_term QcScalar Tex [iq; ir] env0 ed_term = eval_term QcScalar Tex [iq; ir] env0 t'.
-Proof. eexists. split; [vm_compute; reflexivity|]. split; apply Qc_is_canon; vm_compute; reflexivity. Qed.
+(* regression: as coded now the provided targets are handed on, the delta
+   between the two targets stays and the value is kept *)
+Example simplify_ed_regression :
+  simplify_ed_as_coded 3 "U" (Some [iq; ir]) ed_term
+  = Some [Term 1 [(ADelta iq ir, false); Tn "T" [iq]]] /\
+  eval_term QcScalar Tex [iq; ir] env_qr ed_term
+  = eval_term QcScalar Tex [iq; ir] env_qr (Term 1 [(ADelta iq ir, false); Tn "T" [iq]]) /\
+  eval_term QcScalar Tex [iq; ir] env0 ed_term
+  = eval_term QcScalar Tex [iq; ir] env0 (Term 1 [(ADelta iq ir, false); Tn "T" [iq]]).
+Proof. split; [vm_compute; reflexivity|]. split; apply Qc_is_canon; vm_compute; reflexivity. Qed.
